@@ -190,6 +190,11 @@ class Check:
     def wall_cap(self, tier):
         return 600 if tier == 'quick' else 6600
 
+    @staticmethod
+    def history_sensitive(scn):
+        """Some task leaves its magnetic reference to the class (computed once, when the object is built)."""
+        return any(c.get('params', {}).get('magnetic_ref') == 'default' or c.get('params', {}).get('ref_default') for c in scn.get('consumers', []))
+
     def determinism_sample(self, tier):
         return 4 if tier == 'quick' else 32
 
